@@ -6,3 +6,4 @@
 -/
 import ForsysModel.Props.C13
 import ForsysModel.Props.C13relabel
+import ForsysModel.Props.C12relabel
